@@ -1,31 +1,8 @@
-(* Correspondence driver: replays transcripts written by the Rust harness through the
-   extracted model and the extracted specifications.
-   Output protocol (stdout): lines `MISMATCH <kind> <suite-specific text>` (kind = CORR when the
-   implementation differs from the model, ORACLE when the implementation's own result violates
-   the specification), then a final `SUMMARY key=value ...` line. *)
+(* C23 suite: rows *)
 open Model
 open Conv
+open Dcommon
 
-let max_report = 20
-let mism = Hashtbl.create 7
-let report kind text =
-  let c = try Hashtbl.find mism kind with Not_found -> 0 in
-  Hashtbl.replace mism kind (c + 1);
-  if c < max_report then Printf.printf "MISMATCH %s %s\n" kind text
-let count kind = try Hashtbl.find mism kind with Not_found -> 0
-
-let split s = String.split_on_char ' ' (String.trim s) |> List.filter (fun x -> x <> "")
-
-let iter_lines file f =
-  let ic = if file = "-" then stdin else open_in file in
-  (try
-     while true do
-       f (input_line ic)
-     done
-   with End_of_file -> ());
-  if file <> "-" then close_in ic
-
-(* ---------- C23: rows ---------- *)
 let show_row_res = function None -> "N" | Some (v, off) -> Printf.sprintf "S %s %s" (hex_of_n v) (dec_of_n off)
 
 let suite_row file =
@@ -52,5 +29,5 @@ let () =
   match Array.to_list Sys.argv with
   | _ :: "row" :: file :: _ -> suite_row file
   | _ ->
-      prerr_endline "usage: driver <suite> <transcript>";
+      prerr_endline "usage: row.exe row <transcript>";
       exit 2
